@@ -15,6 +15,20 @@ func (ex *Exec) specialExtern(st *State, call *ast.CallExpr, key string, callee 
 		ex.assumedExt[key+" (permutation, sorted w.r.t. the comparator"+map[bool]string{true: ", stable", false: ""}[key == "sort.SliceStable"]+")"] = true
 		ex.sortSlice(st, call, args, key == "sort.SliceStable")
 		return nil, true
+	case "astikit.StrPad":
+		// left padding without cut is the only shape given a law; anything else is uninterpreted
+		res := freshVal("strpad", tString)
+		if len(call.Args) == 4 && ex.isPkgFunc(call.Args[3], "github.com/asticode/go-astikit", "PadLeft") {
+			ex.assumedExt["astikit.StrPad(s, ch, n, PadLeft) (law: result = strpadleft(s,ch,n); length max(len(s),n); s itself when len(s) >= n)"] = true
+			DeclareFun("strpadleft", []Sort{SStr, SInt, SInt}, SStr)
+			r := App("strpadleft", SStr, args[0].term(), args[1].term(), args[2].term())
+			ln := StrLen(args[0].term())
+			st.assume(Eq(StrLen(r), Ite(Ge(ln, args[2].term()), ln, args[2].term())))
+			st.assume(Implies(Ge(ln, args[2].term()), Eq(r, args[0].term())))
+			return []Val{scalar(tString, r)}, true
+		}
+		ex.assumedExt["astikit.StrPad (other options: result unconstrained)"] = true
+		return []Val{res}, true
 	case "fmt.Errorf", "errors.New":
 		ex.assumedExt[key+" (returns a non-nil error)"] = true
 		v := freshVal("err", callee.Type().(*types.Signature).Results().At(0).Type())
